@@ -43,22 +43,29 @@ Theorem C05_handover_fresh : forall tour job value (fs : list (feature tour job 
   forall f, In f fs -> refreshes_on_handover tour job value f = true -> field_ok tour job value f r'.
 Proof. exact handover_fresh. Qed.
 
-(* partial: the side condition holds for all shipped features but compatibility (CompatibilityState::accept_solution_state
-   has an empty body), so the full statement "every cached field of every feature is fresh at handover" is proved for them only *)
-Theorem C05_handover_fresh_partial : forall rs r',
-  Forall (CacheOK _ _ _ shipped_without_compat) rs -> In r' (accept_solution_state _ _ _ shipped_without_compat rs) ->
-  rc_stale r' = false /\ forall f, In f shipped_without_compat -> field_ok _ _ _ f r'.
+(* the shipped table (since /repo b397f8a CompatibilityState::accept_solution_state refreshes the stale tours) satisfies the
+   side condition for EVERY feature: at handover no tour is stale and every cached field equals its recomputation *)
+Theorem C05_handover_fresh_shipped : forall rs r',
+  Forall (CacheOK _ _ _ shipped) rs -> In r' (accept_solution_state _ _ _ shipped rs) ->
+  rc_stale r' = false /\ forall f, In f shipped -> field_ok _ _ _ f r'.
 Proof.
-  intros rs r' H1 H2. destruct (handover_fresh _ _ _ _ shipped_without_compat_keys_distinct rs r' H1 H2) as [Hs Hf].
-  split; [exact Hs|]. intros f Hin. apply Hf; [exact Hin|apply shipped_without_compat_refreshes; exact Hin].
+  intros rs r' H1 H2. destruct (handover_fresh _ _ _ _ shipped_keys_distinct rs r' H1 H2) as [Hs Hf].
+  split; [exact Hs|]. intros f Hin. apply Hf; [exact Hin|apply shipped_refreshes; exact Hin].
 Qed.
 
-(* refuted for the full table: remove the only job carrying a compatibility tag (route_mut), then accept_solution_state:
-   the tour is flagged fresh, the tag is still there, recomputation from the tour gives none *)
+(* the table BEFORE b397f8a (compatibility: empty accept_solution_state; finding C05-F1, regression mutant C05-6) violates that
+   statement: remove the only job carrying a compatibility tag (route_mut), then accept_solution_state: the tour is flagged
+   fresh, the tag is still there, recomputation from the tour gives none *)
 Theorem C05_compat_stale_after_removal_refuted :
-  exists r, In r witness_after /\ rc_stale r = false /\
-            rc_state r 2%nat = Some (CCompat 1) /\ recompute _ _ _ shipped (rc_tour r) 2%nat = None.
-Proof. exact compat_stale_after_removal. Qed.
+  exists r, In r (witness_after shipped_before_b397f8a) /\ rc_stale r = false /\
+            rc_state r 2%nat = Some (CCompat 1) /\ recompute _ _ _ shipped_before_b397f8a (rc_tour r) 2%nat = None.
+Proof. exact compat_stale_after_removal_before_fix. Qed.
+
+(* the same history on the shipped table: the tag is gone, as recomputation says *)
+Theorem C05_compat_fresh_after_removal_shipped :
+  forall r, In r (witness_after shipped) -> rc_stale r = false /\ rc_state r 2%nat = None /\
+            recompute _ _ _ shipped (rc_tour r) 2%nat = None.
+Proof. exact compat_fresh_after_removal_shipped. Qed.
 
 (* a field of the table equals the table's recomputation function at its key *)
 Theorem C05_recompute_field : forall tour job value (fs : list (feature tour job value)),
@@ -78,9 +85,9 @@ Proof. exact objective_function_of_tours. Qed.
 
 (* non-vacuity: a freshly computed context satisfies the invariant with every route-level field present *)
 Theorem C05_nonvacuous :
-  rc_stale witness_fresh = false /\ rc_state witness_fresh 2%nat = Some (CCompat 1) /\
-  rc_state witness_fresh 0%nat = Some (CSched [2; 1]) /\
-  CacheOK _ _ _ shipped witness_fresh.
+  rc_stale (witness_fresh shipped) = false /\ rc_state (witness_fresh shipped) 2%nat = Some (CCompat 1) /\
+  rc_state (witness_fresh shipped) 0%nat = Some (CSched [2; 1]) /\
+  CacheOK _ _ _ shipped (witness_fresh shipped).
 Proof.
   split; [reflexivity|]. split; [reflexivity|]. split; [reflexivity|].
   apply (cache_ok_accept_route_state _ _ _ shipped shipped_keys_distinct). intros H; discriminate.
